@@ -591,3 +591,44 @@ _extend.extend(globals(), [
     "C10_lib1",
     "C10_lib2",
 ])
+
+
+# ---- per-field getters around `reopen` (round 5, seeded C10-4: a cache of decoded track data in the shared storage
+# object kept the values of a REJECTED update visible to sample_rate() / sample_count() / average_loudness() until
+# the library was closed; snapshot() bypassed the cache, so the snapshot-based observation saw nothing)
+_tie_with_parts = tie
+_replay_with_parts = replay
+
+
+def tie(ctx):
+    del runner.GETTER_DIFFS[:]
+    out = _tie_with_parts(ctx)
+    out.setdefault("violations", [])
+    seen = set()
+    for script, text in list(runner.GETTER_DIFFS):
+        key = text.split(" ", 2)[:2]
+        if tuple(key) in seen:
+            continue
+        seen.add(tuple(key))
+        out["violations"].append({
+            "tag": "reopen-getters", "signature": None,
+            "header": {"kind": "script", "oracle": "reopen.getters",
+                       "what": "a per-field getter answers differently after all handles are released and the library "
+                               "is loaded again: " + text[:300]},
+            "body": script})
+    out.setdefault("histograms", {})["reopen_getter_differences"] = len(runner.GETTER_DIFFS)
+    return out
+
+
+def replay(ctx, hdr, body):
+    if hdr.get("oracle") == "reopen.getters":
+        import re
+        script = [l for l in body if not re.match(r"^[A-Za-z_()0-9 ]{1,20}: ", l)]
+        del runner.GETTER_DIFFS[:]
+        outs, _ = runner.run_harness_script(script, watchdog=60)
+        diffs = list(runner.GETTER_DIFFS)
+        txt = "\n".join(["%s\n   impl: %s" % (l[:200], o[:200]) for l, o in zip(script[-6:], outs[-6:])] +
+                        ["getter differences around reopen: %d" % len(diffs)] + ["  " + t[:300] for _, t in diffs] +
+                        ["recorded: %s" % hdr.get("what", "")])
+        return (not diffs), txt
+    return _replay_with_parts(ctx, hdr, body)
